@@ -42,8 +42,8 @@ __CPROVER_ensures((__CPROVER_return_value != NULL && !ENS_FITS(p, needed)) ==> (
 __CPROVER_ensures((__CPROVER_return_value != NULL && g_k <= p->offset && g_k < __CPROVER_old(p->length)) ==> p->buffer[g_k] == g_snap) /*@C04*/
 #endif
 /* allocation failure while growing: the old buffer is released and the buffer is cleared (C08) */
-__CPROVER_ensures((__CPROVER_return_value == NULL && p->buffer != __CPROVER_old(p->buffer)) ==> (p->buffer == NULL && p->length == 0 && !__CPROVER_old(p->noalloc) FREED_OLD)) /*@C08 C07*/
-__CPROVER_ensures((__CPROVER_return_value == NULL && p->buffer == __CPROVER_old(p->buffer)) ==> (p->length == __CPROVER_old(p->length) && g_hook_frees == __CPROVER_old(g_hook_frees))) /*@C08*/
+__CPROVER_ensures((__CPROVER_return_value == NULL && p->buffer != __CPROVER_old(p->buffer)) ==> (p->buffer == NULL && p->length == 0 && !__CPROVER_old(p->noalloc) FREED_OLD)) /*@C08 C07 C14*/
+__CPROVER_ensures((__CPROVER_return_value == NULL && p->buffer == __CPROVER_old(p->buffer)) ==> (p->length == __CPROVER_old(p->length) && g_hook_frees == __CPROVER_old(g_hook_frees))) /*@C08 C07 C14*/
 /* the only tracked block that may appear is the new buffer; the old one disappears only by being released */
 #ifndef VF_ENS_NOLIVE
 __CPROVER_ensures(g_live == __CPROVER_old(g_live) || (g_live == NULL && __CPROVER_old(g_live) == __CPROVER_old((void*)p->buffer)) || (g_live != NULL && g_live == (void*)p->buffer)) /*@C08 C07*/
